@@ -12,9 +12,14 @@ import sys
 
 ROOT = "/verif"
 TREE = os.environ.get("SEED_MATRIX_WORKTREE") or "/repo"
-ENV = "" if TREE == "/repo" else f"VERIF_REPO={TREE} "
+ENV = "VERIF_EVIDENCE_DIR=/verif/out/evidence-sensitivity " + ("" if TREE == "/repo" else f"VERIF_REPO={TREE} ")
 also = []
 args = [a for a in sys.argv[1:]]
+vseeds = ["1"]
+if "--verif-seeds" in args:
+    i = args.index("--verif-seeds")
+    vseeds = args[i + 1].split(",")
+    args = args[:i] + args[i + 2:]
 if "--also" in args:
     i = args.index("--also")
     also = args[i + 1].split(",")
@@ -49,9 +54,14 @@ for d in dirs:
     results = {}
     try:
         for chk in [pid] + [a for a in also if a != pid]:
-            r = sh(f"cd {ROOT} && {ENV}./check {chk} --tier quick")
-            lines = [l for l in r.stdout.splitlines() if l.startswith("VIOLATION") or l.startswith("  ")]
-            results[chk] = dict(exit=r.returncode, violations=sum(1 for l in r.stdout.splitlines() if l.startswith("VIOLATION")), first=(lines[1].strip()[:300] if len(lines) > 1 else ""))
+            runs = []
+            for vs in vseeds:
+                r = sh(f"cd {ROOT} && VERIF_SEED={vs} {ENV}./check {chk} --tier quick")
+                lines = [l for l in r.stdout.splitlines() if l.startswith("VIOLATION") or l.startswith("  ")]
+                runs.append(dict(exit=r.returncode, violations=sum(1 for l in r.stdout.splitlines() if l.startswith("VIOLATION")), first=(lines[1].strip()[:300] if len(lines) > 1 else "")))
+            best = max(runs, key=lambda x: x["exit"] == 1)
+            results[chk] = dict(exit=1 if all(x["exit"] == 1 for x in runs) else (0 if any(x["exit"] == 0 for x in runs) else 2), violations=best["violations"], first=best["first"],
+                                verif_seeds=",".join(vseeds), detected_runs=f"{sum(1 for x in runs if x['exit'] == 1)}/{len(runs)}")
     finally:
         sh(f"git -C {TREE} checkout -- .")
     confirm = {}
@@ -78,7 +88,7 @@ for d in dirs:
         ran="git -C /repo apply patch.diff; ./check <ID> --tier quick; git -C /repo checkout -- .",
     )
     json.dump(meta, open(meta_path, "w"), indent=1)
-    print(name, {k: v["exit"] for k, v in results.items()})
+    print(name, {k: (v["exit"], v.get("detected_runs")) for k, v in results.items()})
 
 if TREE != "/repo":
     sh(f"git -C /repo worktree remove --force {TREE}")
